@@ -196,6 +196,42 @@ theorem src_array_pressure_levels (P : List α) (h2 : 2 ≤ P.length) :
   · have hl : P.length - 1 < P.length := by omega
     simp [List.getD_eq_getElem?_getD, List.getElem?_eq_getElem hl]
 
+/-- `SimplePressureProfile.compute_pressure_profile`, the relation between the two arrays it stores, for WHATEVER values
+    `np.logspace` returns (the external `logspace` is arbitrary here): `pressure_profile` is `layerPressures` of
+    `pressure_profile_levels` (`levels[:-1] * sqrt(levels[1:] / levels[:-1])`).  Generic. -/
+theorem src_layers_of_levels (logspace : α → α → Nat → Nat → α) (m : Nat) (pmin pmax : α) :
+    (List.range (m - 1)).map (Gen.SrcC11.compute_pressure_profile logspace m pmax pmin).2
+      = layerPressures ((List.range m).map (Gen.SrcC11.compute_pressure_profile logspace m pmax pmin).1) := by
+  unfold Gen.SrcC11.compute_pressure_profile layerPressures
+  simp only
+  apply List.ext_getElem
+  · simp [List.length_zipWith]
+  · intro i h1 h2
+    have hi : i < m - 1 := by simpa using h1
+    simp [List.getElem_zipWith, List.getElem_tail]
+
 end
+
+/-! ### the dictionary of stored profiles -/
+
+/-- a value of the regenerated dictionary as a value of the model's -/
+def toProf {α : Type} : Gen.Np.PyVal α → ProfVal α
+  | .arr l => .arr l
+  | .arr2 rows => .arr2 rows
+  | .none => .none
+
+/-- **`SimpleForwardModel.generate_profiles`** (`output.generate_profile_dict(self)`: `out = {}`, one `out[key] = …` per
+    profile, the condensate table under `if model.chemistry.hasCondensates`; then `prof['mu_profile'] = …`) builds the model's
+    `profileDict`: the same keys in the same insertion order with the same values.  The model object's attributes are
+    instantiated with what the model takes: the stored views `v` for scale height / altitude / gravity, `hasCondensates` =
+    "there is a condensate table".  Generic in the element type, core only. -/
+theorem src_generate_profiles {α : Type} (v : Views α) (temp press dens mu : List α)
+    (act inact cond : Option (List (List α))) :
+    (Gen.SrcC11.generate_profiles act v.altitudeProfile (cond.getD []) dens v.gravityProfile cond.isSome inact mu press
+        v.scaleheightProfile temp).map (fun e => (e.1, toProf e.2))
+      = profileDict v temp press dens mu act inact cond := by
+  unfold Gen.SrcC11.generate_profiles Gen.SrcC11.generate_profile_dict profileDict
+  cases act <;> cases inact <;> cases cond <;>
+    simp [Gen.Np.dictSet, toProf, ProfVal.ofTable, Option.elim]
 
 end Taurex.C11Src
